@@ -10,9 +10,10 @@ Open Scope string_scope.
    gets the leader's results and index unchanged, marked as served by the leader. *)
 Theorem C20_forward_transparent : forall k e u p,
   f_local e = LNotLeader -> f_addr e = AKnown ->
-  leader_authorizes k e u p = true -> l_db_ok e = true ->
+  leader_authorizes k e u p = true -> l_db e = DOk ->
   serve k e false u p =
-  ({| h_status := 200;
+  ({| h_body := match k with KRemove | KStepdown => BEmpty | KLoad => BOther | _ => BResults end;
+      h_status := 200;
       h_results := if has_results k then SLeader else SNobody;
       h_index := if json_errors k then SLeader else SNobody;
       h_served_by := match k with KBackup => SNobody | _ => SLeader end |},
@@ -24,7 +25,7 @@ Print Assumptions C20_forward_transparent.
 Theorem C20_redirect_not_forwarded : forall k e u p,
   f_local e = LNotLeader ->
   serve k e true u p =
-  ({| h_status := if l_api_known e then 301 else 500;
+  ({| h_body := BAny; h_status := if l_api_known e then 301 else 500;
       h_results := SNobody; h_index := SNobody; h_served_by := SNobody |},
    {| t_local := 1; t_addr := 0; t_remote := [] |}).
 Proof. exact redirect_not_forwarded. Qed.
@@ -34,10 +35,35 @@ Print Assumptions C20_redirect_not_forwarded.
 Theorem C20_forward_unauthorized : forall k e u p,
   f_local e = LNotLeader -> f_addr e = AKnown -> leader_authorizes k e u p = false ->
   serve k e false u p =
-  ({| h_status := 401; h_results := SNobody; h_index := SNobody; h_served_by := SNobody |},
+  ({| h_body := BAny; h_status := 401; h_results := SNobody; h_index := SNobody; h_served_by := SNobody |},
    {| t_local := 1; t_addr := 1; t_remote := [] |}).
 Proof. exact forward_unauthorized. Qed.
 Print Assumptions C20_forward_unauthorized.
+
+(* Transparency for errors: the forwarded-to node executed the call and answered with an error
+   ("not leader" from a node that has just lost leadership, "leader not found", "stale read", an
+   execution error): one call there, and the client receives an error response carrying that
+   error's text (200 + JSON error for execute/query/request, 500 otherwise; a backup stream cannot
+   carry the text) — never a redirect it did not ask for, never nothing. *)
+Theorem C20_forward_error_transparent : forall k e u p,
+  f_local e = LNotLeader -> f_addr e = AKnown ->
+  leader_authorizes k e u p = true -> l_db e = DErr ->
+  serve k e false u p =
+  ({| h_body := match k with KBackup => BAny | _ => BRemoteError end;
+      h_status := if json_errors k then 200 else 500;
+      h_results := SNobody; h_index := SNobody; h_served_by := SNobody |},
+   {| t_local := 1; t_addr := 1; t_remote := [(call_name k, u, p)] |}).
+Proof. exact forward_error_transparent. Qed.
+Print Assumptions C20_forward_error_transparent.
+
+(* The handler rule, in every environment: without ?redirect there is no 301, and the response is
+   never "nothing" — an empty body only for a remove / stepdown that somebody executed (200 + served-by). *)
+Theorem C20_redirect_only_if_requested : forall k e u p,
+  let o := fst (serve k e false u p) in
+  h_status o <> 301%N /\
+  (h_body o = BEmpty -> (k = KRemove \/ k = KStepdown) /\ h_status o = 200%N /\ h_served_by o <> SNobody).
+Proof. exact redirect_only_if_requested. Qed.
+Print Assumptions C20_redirect_only_if_requested.
 
 (* Always: one local attempt, at most one call on the leader (only for a refused request without
    redirect, only under the caller's credentials), and results are attributed to who executed. *)
